@@ -93,3 +93,40 @@ for name, acl, nxt in (("_process_external_inbound_frame", "external_inbound_acl
     contract(f"{FW}::Firewall.{name}", props=["C06"], requires=fw_req(acl, *nxt) + extra,
              ensures=[("denied_goes_nowhere", f"implies(not old(permits(self.{acl}, frame)), n_events() == old(n_events()))")],
              modifies=["heap"], allocates=True)
+
+
+# ---- forwarding (C08): every hop lowers the TTL, an exhausted TTL ends the journey; direct delivery only into the attached network -------
+D_ = "src/primaite/simulator/network/transmission/data_link_layer.py"
+contract(f"{D_}::Frame.decrement_ttl", props=["C08"], requires=["self.ip is not None"],
+         ensures=[("one_less", "self.ip.ttl == old(self.ip.ttl) - 1")], modifies=["self.ip.ttl"])
+dispatch_contract(f"{B}::NetworkInterface.send_frame", note="hand-over to an interface of whatever kind: the rest of the network may do anything",
+                  ensures=[], modifies=["heap"], emits=[("send", ["self", "frame", "frame.ip.ttl"])], exact_events=True, allocates=True)
+inline("src/primaite/simulator/system/core/software_manager.py::SoftwareManager.arp")
+spec("fwd_wf(r, f)", "f.ip is not None and f.ethernet is not None and r.software_manager is not None and 'arp' in r.software_manager.software"
+                     " and forall(k, 0, len(r.route_table.routes), valid_mask(r.route_table.routes[k].subnet_mask))")
+contract(f"{RT}::Router.route_frame", props=["C08"], use_dispatch=["send_frame"],
+         requires=["fwd_wf(self, frame)"],
+         ensures=[("at_most_one_hand_over", "n_events() <= old(n_events()) + 1"),
+                  # a frame leaves only with a TTL lowered by exactly one and still >= 1: forwarding ends
+                  ("every_hop_lowers_ttl", "implies(n_events() == old(n_events()) + 1, event_kind(old(n_events())) == ev('send') and event_arg(old(n_events()), 1) is frame"
+                                           " and event_arg(old(n_events()), 2) == old(frame.ip.ttl) - 1 and old(frame.ip.ttl) - 1 >= 1)"),
+                  ("exhausted_ttl_ends_here", "implies(old(frame.ip.ttl) <= 1, n_events() == old(n_events()))")],
+         modifies=["heap"], allocates=True)
+dispatch_contract(f"{RT}::Router.route_frame", ensures=[], modifies=["heap"], emits=[("route", ["self", "frame"])], exact_events=True, allocates=True)
+contract(f"{RT}::Router.process_frame#forwarding", props=["C08"], use_dispatch=["send_frame", "route_frame"], budget_s=600,
+         requires=["fwd_wf(self, frame)"],
+         ensures=[("at_most_one_step", "n_events() <= old(n_events()) + 1"),
+                  # handed straight to an interface only when the destination lies in that interface's own network (everything
+                  # else goes through the route table), with the TTL lowered by one and still >= 1
+                  ("direct_delivery_only_into_the_attached_network",
+                   "implies(n_events() == old(n_events()) + 1 and event_kind(old(n_events())) == ev('send'),"
+                   " event_arg(old(n_events()), 1) is frame and event_arg(old(n_events()), 2) == old(frame.ip.ttl) - 1 and old(frame.ip.ttl) - 1 >= 1"
+                   " and forall_obj(x, RouterInterface, implies(x is event_arg(old(n_events()), 0),"
+                   " in_net(old(frame.ip.dst_ip_address), old(x.ip_address), old(x.subnet_mask)))))"),
+                  ("otherwise_routed", "implies(n_events() == old(n_events()) + 1 and event_kind(old(n_events())) != ev('send'),"
+                                       " event_kind(old(n_events())) == ev('route') and event_arg(old(n_events()), 1) is frame)"),
+                  # a frame for one of the router's own addresses that no service took is dropped, not sent around
+                  ("own_address_dropped", "implies(old(exists(j, 0, len(self.network_interfaces), dict_val(self.network_interfaces, j).ip_address == frame.ip.dst_ip_address)),"
+                                          " n_events() == old(n_events()) and unchanged())")],
+         modifies=["heap"], allocates=True,
+         loops={0: {"inv": [("none_so_far", "forall(j, 0, _i, dict_val(self.network_interfaces, j).ip_address != frame.ip.dst_ip_address)")], "modifies": []}})
